@@ -10,4 +10,24 @@ META = {
   "note": "Trusted: Lean kernel (+ propext, Classical.choice, Quot.sound), the model's faithfulness as far as the generated histories exercise it, harness+runner. xxhash32 itself is a parameter (real value obtained from the real calculate_32 and fed to the model). Concurrent senders (fetch_add interleavings) are outside this property's statement ('with no concurrent sender').",
   "technique": "Lean 4 proof (arithmetic on mod / case analysis of Topic.send) + differential correspondence",
  },
+ "C01": {
+  "text": "Lean theorems, for every history of abstract partition operations (append with any batch/dedup state, purge, retention drop, restart, offset ops — induction over the op list, no bound): offsets_consecutive (retained offsets are exactly lo..next-1), cur_is_last, batch_contiguous_in_order (k-th accepted message of a batch gets next+k), dedup_off_all_accepted, duplicate_consumes_nothing, next_after_purge_drop_restart. Stated on the abstract partition SPart; the L1 storage model (segments, accumulator, indexes, cache) is related to it by Iggy/Log/Refine.lean (in progress) and both are compared with the real server on every run. " + TIE + "Histories interleave sends (batch sizes 1..8, roll-over at 600 B segments), flushes, saves, restarts, purges and full polls under all storage configurations.",
+  "design_ref": "§5 C01", "note": "Trusted: Lean kernel, faithfulness of models as exercised by the generated histories, harness+runner. No-wait confirmation is exercised by C12 only. The L1<->L2 refinement proof is not complete yet: until it is, the tie of these theorems to the code is the direct spec-vs-implementation comparison of the judge.",
+  "technique": "Lean 4 proof (invariant by induction over operation histories) + differential correspondence",
+ },
+ "C02": {
+  "text": "Lean theorems about the poll specification, for every reachable abstract state and every (offset,count): poll_genuine, poll_contiguous (no holes/repeats), poll_complete (never fewer than available), poll_at_most_count, poll_in_order, first_last_next, timestamp_poll, identity_ops_invisible. The specification mentions only retained messages, so tier-independence is part of the statement; the L1 model computing the same answer from cache/buffer/disk/several segments is Iggy/Log/Refine.lean (in progress). " + TIE + "Every history polls with all five kinds and random (offset|timestamp,count) at every point, including mixed disk+buffer ranges, multi-segment ranges and reads after reload; a second oracle checks that flush/save/evict/restart never change the implementation's own answer to a repeated poll.",
+  "design_ref": "§5 C02", "note": "Trusted: as C01. Message content integrity (payload, headers, checksum) is checked by the harness against a deterministic expansion of the tag and travels in the trace as one number.",
+  "technique": "Lean 4 proof (list lemmas on the filtered consecutive log) + differential correspondence",
+ },
+ "C07": {
+  "text": "Lean theorems on the offset store of an abstract partition: get_after_store, store_isolated / delete_isolated (other consumer, other group, consumer vs group with the same numeric id), store_beyond_refused, delete_removes, purge_clears, survives (append/retention/restart keep stored offsets), next_after_stored. " + TIE + "Histories interleave store/get/delete/poll-next(+auto-commit)/purge/restart by consumers and groups that share numeric ids on several partitions.",
+  "design_ref": "§5 C07", "note": "Trusted: as C01. Isolation between two named consumers needs their xxhash32 values to differ (explicit hypothesis; numeric ids are used in the non-vacuity example).",
+  "technique": "Lean 4 proof (association-list lemmas) + differential correspondence",
+ },
+ "C18": {
+  "text": "Lean theorems: ids_nodup (in every reachable state with dedup on no two retained messages share an id — induction over unbounded histories incl. restarts), distinct_never_dropped, accepted_are_new (first occurrence kept, repeats within a batch dropped), dup_consumes_no_offset, dedup_off_stores_all, restart_rebuilds. " + TIE + "Histories send batches with 35% repeated ids within and across batches, across the persist boundary and across restarts, with full polls after sends.",
+  "design_ref": "§5 C18", "note": "Trusted: as C01; moka's capacity/TTL eviction is outside the property (configured 10^6 ids, 10 h).",
+  "technique": "Lean 4 proof (invariant over histories; numbering-loop lemma) + differential correspondence",
+ },
 }
